@@ -419,6 +419,21 @@ func (fr *Frame) evalClause(cl *Clause, cur, old *State, extra map[string]bound)
 	return v.C[0], nil
 }
 
+// evalInGoal: like evalIn, for proof goals (outermost foralls skolemised).
+func (fr *Frame) evalInGoal(text string, pkg *types.Package, env map[string]bound, cur, old *State) (Value, []Term, error) {
+	e, err := parseContractExpr(text)
+	if err != nil {
+		return Value{}, nil, err
+	}
+	lookup := func(name string, _ *State) (bound, bool) {
+		b, ok := env[name]
+		return b, ok
+	}
+	ec := &evalCtx{vc: fr.vc, fr: fr, pkg: pkg, lookup: lookup, cur: cur, old: old, now: cur, qvars: map[string]bound{}, skTop: true}
+	v, _, err := ec.evalSafe(e)
+	return v, ec.skolems, err
+}
+
 func (fr *Frame) evalIn(text string, pkg *types.Package, env map[string]bound, cur, old *State, extra map[string]bound) (Value, types.Type, error) {
 	e, err := parseContractExpr(text)
 	if err != nil {
